@@ -180,7 +180,31 @@ func famC(r *ev.Run, p *pool) {
 			}
 		}
 	}
-	sample(p, "c", map[string]interface{}{"m_n_context_combinations": pairs, "variants": []string{"first-m", "last-m", "bad-at-j", "empty-at-j", "swapped"}, "dummy": []string{"empty", "01"}})
+	// CHECKMULTISIG(VERIFY) with OP_CODESEPARATOR after the opcode and/or in an unexecuted
+	// branch before it; every subset of signers (so the matching key is often not the
+	// first one tried and failed attempts precede it)
+	for n := 1; n <= 3; n++ {
+		for mask := 1; mask < 1<<uint(n); mask++ {
+			var subset []int
+			for i := 0; i < n; i++ {
+				if mask>>uint(i)&1 == 1 {
+					subset = append(subset, i+1)
+				}
+			}
+			for layout := 0; layout < 4; layout++ {
+				for _, vop := range []bool{false, true} {
+					for _, ctx := range []int{0, 1, 2} {
+						if (ctx == 1 && layout != 1) || (ctx == 2 && layout != 1 && layout != 3) {
+							continue // all layouts bare; P2SH and P2WSH with the separator-after layouts
+						}
+						n, subset, layout, vop, ctx := n, subset, layout, vop, ctx
+						b.lazy(func() []*Case { return multisigSepCases(n, subset, layout, vop, ctx) })
+					}
+				}
+			}
+		}
+	}
+	sample(p, "c", map[string]interface{}{"m_n_context_combinations": pairs, "codeseparator_layouts": []string{"plain", "separator-after", "separator-in-unexecuted-branch", "separator-before-and-after"}, "variants": []string{"first-m", "last-m", "bad-at-j", "empty-at-j", "swapped"}, "dummy": []string{"empty", "01"}})
 }
 
 func multisigCases(m, n, ctx int) (l []*Case) {
@@ -267,6 +291,80 @@ func multisigCases(m, n, ctx int) (l []*Case) {
 						Tx:    tx, Idx: 0, Spent: sp, Flags: fl.f, FName: fl.name})
 				}
 			}
+		}
+	}
+	return
+}
+
+// multisigSepCases: m-of-n (keys 1..n, signers = subset) with OP_CODESEPARATOR layouts;
+// the tail "<key 4> CHECKSIG" after an executed separator needs its own signature.
+func multisigSepCases(n int, subset []int, layout int, verifyOp bool, ctx int) (l []*Case) {
+	m := len(subset)
+	var scr []byte
+	if layout == 2 || layout == 3 {
+		scr = append(scr, 0x00, 0x63, 0xab, 0x68)
+	}
+	scr = append(scr, byte(0x50+m))
+	for i := 1; i <= n; i++ {
+		scr = append(scr, pushData(keys[i].pub)...)
+	}
+	scr = append(scr, byte(0x50+n))
+	tail := layout == 1 || layout == 3
+	switch {
+	case tail && verifyOp:
+		scr = append(scr, 0xaf, 0xab)
+	case tail:
+		scr = append(scr, 0xae, 0x69, 0xab)
+	case verifyOp:
+		scr = append(scr, 0xaf, 0x51)
+	default:
+		scr = append(scr, 0xae)
+	}
+	tailBegin := len(scr)
+	if tail {
+		scr = append(scr, pushData(keys[4].pub)...)
+		scr = append(scr, 0xac)
+	}
+	t0, _ := txFor(nil, nil, nil, aAmount)
+	digest := func(code []byte) [32]byte {
+		if ctx == 2 {
+			return refhash.BIP143(t0, code, aAmount, 0, 1)
+		}
+		return refhash.Legacy(t0, code, 0, 1)
+	}
+	lay := []string{"plain", "separator-after", "separator-in-unexecuted-branch", "separator-before-and-after"}[layout]
+	for _, variant := range []string{"valid", "first-signature-bad"} {
+		if variant != "valid" && layout != 1 {
+			continue
+		}
+		var st [][]byte
+		if tail {
+			st = append(st, ecdsaSig(4, digest(scr[tailBegin:]), 1))
+		}
+		st = append(st, []byte{})
+		for j, ki := range subset {
+			d := digest(scr)
+			if variant != "valid" && j == 0 {
+				d = badDigest
+			}
+			st = append(st, ecdsaSig(ki, d, 1))
+		}
+		pp := &prepared{P: scr}
+		tx, sp := buildCtx(pp, ctx, st)
+		if ctx == 0 || ctx == 1 {
+			// signatures are not minimal-push sensitive; keep plain pushes
+		}
+		for _, fl := range []flagSet{fsBlkDersig, fsBlkTaproot, fsStd} {
+			if ctx == 2 && fl.f&fBlkSegwit != fBlkSegwit {
+				continue
+			}
+			op := "CHECKMULTISIG"
+			if verifyOp {
+				op = "CHECKMULTISIGVERIFY"
+			}
+			l = append(l, &Case{Fam: "c", Tag: fmt.Sprintf("multisig-codeseparator/%s/%s", lay, variant),
+				Label: fmt.Sprintf("%d-of-%d %s signed by keys %v, OP_CODESEPARATOR layout %s, in %s (%s)", m, n, op, subset, lay, ctxNames[ctx], variant),
+				Tx:    tx, Idx: 0, Spent: sp, Flags: fl.f, FName: fl.name})
 		}
 	}
 	return
